@@ -20,12 +20,13 @@ func init() {
 	vRegister("HarnessC02Sync", HarnessC02Sync)
 }
 
-// c02Points: an arbitrary subset of the identities (v,0), (w,0) with
+// c02Points: an arbitrary subset of the identities (v,0), (w,0) (and (u,0)
+// with parameter "ids" = 3) with
 // arbitrary values and times taken from a small range (so that the two
 // sides can hold older, newer or equal versions).
 func c02Points(tag string) data.Points {
 	var out data.Points
-	for _, typ := range []string{"v", "w"} {
+	for _, typ := range []string{"v", "w", "u"}[:vParam("ids", 2)] {
 		if vBool() {
 			p := data.Point{Type: typ, Key: "0", Time: vInstant(19886, vRange(0, 3), 0, 0), Value: vF64(), Text: tag}
 			vAssume(p.Value == p.Value)
